@@ -1,3 +1,4 @@
+import numpy as np
 from scipy import optimize as sopt
 
 from ..config import LocalOptimizationConfig
@@ -34,8 +35,19 @@ class LocalDeme(AbstractDeme):
         else:
             fun = self._problem.evaluate
 
+        # An infinite objective value turns scipy's finite-difference steps into NaN points: those are
+        # outside every box, so they are answered here and never passed on to the problem.
+        n_refused = 0
+
+        def finite_points_only(x):
+            nonlocal n_refused
+            if not np.all(np.isfinite(x)):
+                n_refused += 1
+                return np.inf
+            return fun(x)
+
         result = sopt.minimize(
-            fun,
+            finite_points_only,
             x0,
             method=self._method,
             bounds=self._bounds,
@@ -45,7 +57,7 @@ class LocalDeme(AbstractDeme):
 
         # Accessing the result object gives the exact number of function evaluations.
         # Callback does not include jacobian approximation etc
-        self._n_evals += result.nfev
+        self._n_evals += result.nfev - n_refused
         # Encapsulating all iterations in a list to match actual metaepoch count
         self._history.append([self._run_history])
         # By design local optimization is a one-metaepoch process
@@ -57,6 +69,8 @@ class LocalDeme(AbstractDeme):
         return self._n_evals
 
     def _history_callback(self, intermediate_result) -> None:
+        if not np.all(np.isfinite(intermediate_result.x)):
+            return
         # scipy reuses the array behind intermediate_result.x between iterations: keep a copy
         ind = Individual(intermediate_result.x.copy(), problem=self._problem)
         ind.fitness = -intermediate_result.fun if self._problem.maximize else intermediate_result.fun
